@@ -446,6 +446,13 @@ func (fc *followerController) append(req *proto.Append, stream proto.OxiaLogRepl
 			slog.Int64("commit-offset", req.CommitOffset),
 			slog.Int64("offset", req.Entry.Offset),
 		)
+		if req.Entry.Offset > fc.wal.LastOffset() {
+			// We have the entry but it was not synced yet (eg: the leader has reconnected and
+			// is re-sending it). It can only be acked once it is durable.
+			if err := fc.wal.Sync(stream.Context()); err != nil {
+				return err
+			}
+		}
 		if err := stream.Send(&proto.Ack{Offset: req.Entry.Offset}); err != nil {
 			fc.closeStreamNoMutex(err)
 		}
@@ -467,6 +474,10 @@ func (fc *followerController) append(req *proto.Append, stream proto.OxiaLogRepl
 }
 
 func (fc *followerController) handleReplicateSync(stream proto.OxiaLogReplication_ReplicateServer) {
+	// Keep track of what this routine has acked, instead of looking at the WAL synced offset
+	// right before syncing: a duplicated append might have synced the WAL in the meantime
+	oldHeadOffset := fc.wal.LastOffset()
+
 	for {
 		fc.Lock()
 		if err := fc.syncCond.Wait(stream.Context()); err != nil {
@@ -475,8 +486,6 @@ func (fc *followerController) handleReplicateSync(stream proto.OxiaLogReplicatio
 			return
 		}
 		fc.Unlock()
-
-		oldHeadOffset := fc.wal.LastOffset()
 
 		if err := fc.wal.Sync(stream.Context()); err != nil {
 			fc.closeStream(err)
@@ -491,6 +500,7 @@ func (fc *followerController) handleReplicateSync(stream proto.OxiaLogReplicatio
 				return
 			}
 		}
+		oldHeadOffset = newHeadOffset
 
 		fc.applyEntriesCond.Signal()
 	}
